@@ -283,6 +283,8 @@ impl SchedulerCore {
         if threads.len() < max_threads {
             // Create a new thread
             let is_busy     = Arc::new(Mutex::new(false));
+            #[cfg(desync_verif)]
+            is_busy.verif_observe("B", |busy| format!("{}", busy));
             let new_thread  = SchedulerThread::new();
             threads.push((is_busy, new_thread));
             
